@@ -1979,10 +1979,19 @@ func c01r16(rc *core.RC) {
 // interpreters compute addresses from them (data + idx*size). The values come from the type descriptor as uintptr.
 // A conversion of such a value to an integer type of fewer than 32 bits truncates for large types (an element of 64
 // KiB or more with a 16-bit size: every element after the first is read from the wrong address).
-func c01r17(rc *core.RC) {
+func c01r17(rc *core.RC) { narrowedSizes(rc, []string{"encoder"}, 4) }
+
+// c07r11: the same for the decoder side (element sizes for typedmemmove and map slots, offsets).
+func c07r11(rc *core.RC) { narrowedSizes(rc, []string{"decoder", "runtime", "json"}, 1) }
+
+func narrowedSizes(rc *core.RC, pkgs []string, floor int) {
 	p := rc.P
 	n := 0
-	for _, fd := range p.Funcs("encoder") {
+	var fds []*ast.FuncDecl
+	for _, pk := range pkgs {
+		fds = append(fds, p.Funcs(pk)...)
+	}
+	for _, fd := range fds {
 		if fd.Body == nil {
 			continue
 		}
@@ -2018,8 +2027,8 @@ func c01r17(rc *core.RC) {
 			return true
 		})
 	}
-	if n < 4 {
-		rc.Unknown("encoder/uintptr-conversions", token.NoPos, "found %d conversions of a uintptr to another integer type in the encoder package", n)
+	if n < floor {
+		rc.Unknown(pkgs[0]+"/uintptr-conversions", token.NoPos, "found %d conversions of a uintptr to another integer type in %v", n, pkgs)
 	}
 }
 
